@@ -279,4 +279,8 @@ def run(ctx):
     run.rule(R8, "a transaction that is on chain is refused: the refresh a cancel starts from confirms a mined send through its kernel whenever no unconfirmed output still refers to it (a send whose change was re-spent at zero confirmations is confirmed by nothing else) - otherwise the entry stays unconfirmed and the cancel goes through", floor=4)
     from .C04 import kernel_step_scope
     kernel_step_scope(ctx, R8)
+    R9 = "C05.R9"
+    run.rule(R9, "an unknown id is refused, also on the command line: `cancel -i <id>` and `repost -i <id>` hand the id the user typed to the wallet, not its low 32 bits", floor=2)
+    from .shared import cli_id_not_narrowed
+    cli_id_not_narrowed(ctx, R9, ("parse_cancel_args", "parse_repost_args"))
     run.not_decided += ["'exactly what they were before' as an equality of balances (numeric, over histories)"]
